@@ -227,6 +227,8 @@ package task
 //@ ghost var lastFailed bool scratch
 //@ ghost var nestFailed bool scratch
 //@ ghost var runCtx context.Context scratch
+//@ ghost var markedCtx context.Context scratch
+//@ ghost var cycleSeen bool scratch
 //@ ghost var execErr error scratch
 //@ ghost var sharedCause error scratch
 //@ ghost var waited bool scratch
@@ -408,6 +410,12 @@ package task
 
 // startExecution: "always" tasks (empty key) just run; otherwise the first caller registers the key and runs,
 // later callers wait for it. execOK(h): the registered execution for key h returned nil.
+// the search for a wait that would never end: reads the chain and the wait table, changes nothing
+//@ func (*Executor).waitWouldNeverEnd
+//@   trusted frame
+//@   pure allocates
+//@   requires held(e.executionHashesMutex)    -- the wait table is read under the lock of the execution table         [C18,C07]
+//@   nopanic                                                                                            [C07,C16]
 //@ func (*Executor).startExecution
 //@   param execute fnspec taskBody
 //@   modifies heap, fs_exists, fs_ver
@@ -422,7 +430,11 @@ package task
 //@   site execute#2 ghost execErr := result
 //@   site recv#1 ghost set execFinished(h)   -- Done() of the context registered for h is closed only by the registering call, after its execution returned
 //@   ensures result == nil && h != "" ==> execFinished(h)   -- nobody proceeds while the one real execution is still running   [C01,C06,C02]
-//@   site context.WithCancelCause#0 requires arg0 == ctx      -- the shared execution stays cancellable by its first caller    [C03]
+// the context of the shared execution is derived from its first caller's (it stays cancellable by that caller) through
+// ONE step that adds the mark of h: everything the execution runs - deps, nested calls, their deps - carries the mark
+//@   site context.WithValue#0 requires arg0 == ctx                                                      [C03,C07]
+//@   site context.WithValue#1 ghost markedCtx := result
+//@   site context.WithCancelCause#0 requires arg0 == markedCtx                                          [C03,C07]
 //@   site execute#1 requires arg0 == ctx                                                                  [C03]
 //@   site execute#2 requires arg0 == runCtx                                                               [C03]
 //@   site context.WithCancelCause#1 ghost runCtx := result.0
@@ -436,7 +448,19 @@ package task
 //@   site (Context).Done#0 requires recv == otherExecutionCtx && ok && h != ""                        [C01,C06,C13]
 //@   site recv#1 requires ok    -- a later caller blocks until the registered execution is done       [C01,C06,C13]
 //@   site recv#1 requires semLimited() ==> tok == 0                                                    [C07]
+// A call that would wait for an execution it is itself part of - or for one that is, through others, waiting for one
+// of those (a cycle through run: once / when_changed tasks, entered from one side or from several at once) - must not
+// wait. GUARANTEE: every execution records itself in the chain of the context it hands to its body (WithValue above),
+// and every call that is about to wait records, under the lock, which executions it is part of (the wait table).
+// RELY: when the search over chain and wait table finds none of the caller's own executions reachable from h,
+// waiting for h is not waiting for oneself.
+//@   site (*Executor).waitWouldNeverEnd#0 requires arg1 == chain && arg2 == h && held(e.executionHashesMutex)   [C07]
+//@   site (*Executor).waitWouldNeverEnd#1 ghost set notAncestor(h) if !result
+//@   site (*Executor).waitWouldNeverEnd#1 ghost cycleSeen := result
+//@   init cycleSeen := false
 //@   site recv#1 requires notAncestor(h)                                                               [C07]
+// ... and a cycle ends with the "called too many times" class (204; 201 around it through a task: command)
+//@   ensures cycleSeen ==> result != nil && dyn(result) == type(*errors.TaskCalledTooManyTimesError)    [C07]
 //@   ensures result == nil && h != "" ==> execOK(h)   -- first caller and waiters alike return nil only for a successful execution  [C01,C06,C13,C02]
 //@   nosite delete                     -- an execution key, once registered, is never unregistered     [C06]
 // A waiter's error IS the error the one real execution ended with (the raw exit status, seen by errors.As and by
@@ -639,6 +663,7 @@ package task
 
 // ---- C18: lock discipline of the shared tables (every function touching them is scanned) ----------------
 //@ guarded_by Executor.executionHashes Executor.executionHashesMutex                                               [C18]
+//@ guarded_by Executor.executionWaits Executor.executionHashesMutex                                                [C18,C07]
 //@ guarded_by Compiler.dynamicCache Compiler.muDynamicCache                                                        [C18]
 
 // ---- C09: Go map iteration (random order) is confined to functions that do not depend on the order ---------
@@ -655,7 +680,7 @@ package task
 // executions, the watcher's directory set, the defaulted sorter; the cache of dynamic variables, which is keyed
 // by command and directory). A memo added anywhere else - another field, a package-level variable - makes what a
 // task sees depend on which tasks were compiled before it, and fails here without any annotation of the new code.
-//@ state_fields Executor: executionHashes watchedDirs TaskSorter except NewExecutor *.ApplyToExecutor (*Executor).setup* (*Executor).getRootNode (*Executor).readTaskfile   [C11,C18,C07]
+//@ state_fields Executor: executionHashes executionWaits watchedDirs TaskSorter except NewExecutor *.ApplyToExecutor (*Executor).setup* (*Executor).getRootNode (*Executor).readTaskfile   [C11,C18,C07]
 //@ state_fields Compiler: dynamicCache except (*Executor).setupCompiler                                           [C11,C18]
 // watch mode: the cache of dynamic variables is dropped by the event loop itself (watchTasks$2), for every event it
 // acts on, before any task is restarted - not by the per-task goroutines, not behind a filter
